@@ -1022,7 +1022,14 @@ class Interp:
                 node = mod.funcs[q]
                 decs = decorators(node)
                 if "property" in decs:
-                    raise Unsupported("property %s (use a contract)" % q)
+                    # a read-only property: its getter is evaluated like a side-effect-free method call (by contract when it has
+                    # one, inline otherwise); getters that fork or write are not supported
+                    s2 = st.copy()
+                    s2.pure = True
+                    outs = list(self.call(s2, FuncVal(node, None, mod, q, self_val=base, cls=cls), [], {}))
+                    if len(outs) != 1:
+                        raise Unsupported("property %s: getter forks (use a contract)" % q)
+                    return outs[0][0]
                 if "staticmethod" in decs:
                     return FuncVal(node, None, mod, q, cls=cls)
                 if "classmethod" in decs:
